@@ -12,6 +12,14 @@ CLAIMED['C14'] = dict(
    text='Machine-checked theorems (Coq 8.16.1): the word count generated from seqlock.hpp covers every byte of T for all sizes; a step-level model of load/store/update (any number of readers and writers, any slot count, any word count, arbitrary update functor) with invariant theorems about atomicity of load. The model is tied to the code on every run by line-by-line comparison of atomic-access traces (model vs real code under xvrt) for sizes 9..40 bytes and 1..8 slots; a schedule search with a byte-exact atomic-register linearizability oracle looks for concrete failing inputs.',
    note='Trusted: Coq kernel, translator, extraction, xvrt/harness for the tie. Proved for the model; SC interleavings only (fences 6/7: C03). Misaligned T is outside the model (the storage is word aligned after the fix).',
    technique='Coq proof over generated word arithmetic + step-level model; trace correspondence; schedule search', design='5/C14')
+CLAIMED['C13'] = dict(
+   text='Machine-checked theorems (Coq 8.16.1) on a step-level model of left_right read/update (arrive/depart counters, indicator switch, version toggle, two waits, mutex): writer mutual exclusion; a read functor never runs on the instance being modified (for every number of threads below 2^64, every program and schedule); reads never return a mixture; every update is applied exactly once to both instances in the same order; read values are prefix sums of the update sequence. The model is tied to left_right.hpp on every run by line-by-line comparison of traces (atomic accesses, mutex operations, yields, functor steps) of the extracted model and the real code under xvrt; a schedule search (random, PCT, preemption-bounded DFS) with mixture / exactly-once / linearizability oracles looks for failing inputs.',
+   note='Trusted: Coq kernel, extraction, xvrt/harness for the tie. Proved for the model with T={x,y} and additive functors; SC interleavings only (seq_cst reasoning under weak memory: C03). std::mutex modelled as atomic lock/unlock.',
+   technique='Coq invariant proof over step-level model; trace correspondence; schedule search', design='5/C13')
+CLAIMED['C05'] = dict(
+   text='Step-level Coq model of vyukov_bounded_queue (strong and weak push/pop) tied to the code by trace correspondence on every run (capacities 2,4,8, wrap-arounds, strong/weak mixes); invariant theorems about ticket order and full/empty verdicts (Proof/VyukovInv.v when present); SCQ index arithmetic generated from nikolaev_scq.hpp. nikolaev_bounded_queue and all element kinds are covered by a schedule search with a bounded-FIFO linearizability oracle and an ownership census.',
+   note='Trusted: Coq kernel, translator, extraction, xvrt/harness. Proved for the vyukov model only; nikolaev_bounded concurrent behaviour is explored, not proved. SC only.',
+   technique='Coq proof over step-level model + generated index arithmetic; trace correspondence; schedule search', design='5/C05')
 NOT_YET = {}
 props = [json.loads(l) for l in open(os.path.join(V, 'properties.jsonl'))]
 checks, na = [], []
@@ -36,7 +44,7 @@ m = {
  'version': 1,
  'setup_cmd': 'bash tools/build.sh',
  'hooks': {'guard': 'XENIUM_VERIF_HOOKS', 'enable': 'harness TUs are compiled with -DXENIUM_VERIF_HOOKS (g++ -fsanitize=thread -U__SANITIZE_THREAD__, linked against rt/xvrt.o instead of libtsan)',
-           'baseline_off_cmd': 'cmake --build /repo/_build -j16 && ctest --test-dir /repo/_build -j8 --timeout 900', 'source_commits': [], 'add_only': True},
+           'baseline_off_cmd': 'cmake --build /repo/_build --target gtest -j16 && ctest --test-dir /repo/_build -j8 --timeout 900', 'source_commits': ['6225813'], 'add_only': True},
  'engines': [{'name': 'xv', 'path': 'tools/check.py', 'serves_properties': sorted(CLAIMED), 'kind_free_text': 'Coq 8.16.1 proofs over generated and hand-written models + model/implementation trace correspondence under a TSan-interface runtime (rt/xvrt) + schedule search for failing inputs'}],
  'checks': checks,
  'notes': 'See DESIGN.md. Every check regenerates coq/gen from /repo, rebuilds its Coq cone (full .vo), rebuilds its harness against the current /repo tree, runs correspondence and search, and writes evidence/<id>.json.',
